@@ -127,3 +127,11 @@ MUTANTS += [
     dict(prop="C13", name="labels ignored: one sequence per event", file=GO, old="    for sound_event, label in zip(sound_events, labels):\n        sequence = sequences[label]", new="    for sound_event, label in zip(sound_events, range(len(labels))):\n        sequence = sequences[label]"),
     dict(prop="C13", name="matrix one column short", file=GO, old="        shape=(rows, rows),", new="        shape=(rows, rows + 1),"),
 ]
+MUTANTS += [
+    dict(prop="C18", name="prediction set drops audio_dir", file="io/aoef/prediction_set.py", old="            audio_dir=audio_dir,", new="            audio_dir=None,"),
+    dict(prop="C18", name="recording adapter ignores audio_dir on load", file="io/aoef/recording.py", old="            path = self.audio_dir / obj.path", new="            path = obj.path"),
+    dict(prop="C18", name="relative_to swallowed", file="io/aoef/recording.py", old="            path = Path(obj.path).relative_to(self.audio_dir)", new="            try:\n                path = Path(obj.path).relative_to(self.audio_dir)\n            except ValueError:\n                path = obj.path"),
+    dict(prop="C18", name="to_soundevent forgets audio_dir", file="io/aoef/__init__.py", old="            adapter = adapter_cls(audio_dir=audio_dir)\n            return adapter.to_soundevent(aoef_object.data)", new="            adapter = adapter_cls()\n            return adapter.to_soundevent(aoef_object.data)"),
+    dict(prop="C18", name="save writes before converting", file="io/aoef/__init__.py", old="    aoef_object = to_aeof(obj, audio_dir=audio_dir)\n    path.write_text(", new="    path.write_text(\"\")\n    aoef_object = to_aeof(obj, audio_dir=audio_dir)\n    path.write_text("),
+    dict(prop="C18", name="loader drops audio_dir", file="io/loader.py", old="    return loader(path, audio_dir=audio_dir, type=type)", new="    return loader(path, audio_dir=None, type=type)"),
+]
